@@ -15,11 +15,13 @@ MCAspa == {<<"a1", "prov:a2">>, <<"a1", "prov:a2+a3">>}
 MCRoaAspa == MCRoa1 \cup MCAspa
 Chain == [c \in Sub |-> IF c = "B" THEN "A" ELSE "B"]
 Flat == [c \in Sub |-> "A"]
+\* B under A, C under B, and C's second parent (slot C2) is A itself
+Multi == [c \in Sub |-> IF c = "B" THEN "A" ELSE IF c = "C" THEN "B" ELSE "A"]
 
 \* The status reports are written by the actions and never read by them (but
 \* for rst itself): configurations whose properties do not mention them
 \* identify states that differ in the reports only.
-CoreView == <<exists, gone, parent, ent, cstate, iss, sus, rc, rcv, req, routes,
+CoreView == <<exists, gone, parent, hasp, ent, cstate, iss, sus, rc, rcv, req, routes,
               pub, tasks, pubknown, napi>>
 
 MCInit == Init /\ napi = 0
